@@ -41,3 +41,91 @@ Theorem C08_lostlog_refuted : exists c ops,
   ~ StronglySorted N.lt (ack_seqs (init c) ops).
 Proof. exact EngineProofs.C08_lostlog_refuted. Qed.
 Print Assumptions C08_lostlog_refuted.
+
+(* ---- writes that carry merge operands (Engine.mixed_batch / merge_batch, EngineMerge.v) ---- *)
+From KV Require Import EngineMerge.
+
+(* a merge-only batch on a state with room: acknowledged with the next number of the log, both
+   counters move to it, its entries go to the log, no read changes *)
+Theorem C08_merge_batch_ok : forall s es,
+  es <> [] -> wal_next s < MaxSeq ->
+  let s' := fst (merge_batch s es) in
+  snd (merge_batch s es) = WrOk (wal_next s) /\
+  wal_next s' = wal_next s + 1 /\
+  last_seq s' = wal_next s /\
+  concat (wal_files s') = concat (wal_files s) ++ map (merge_entry (wal_next s)) es /\
+  lost_log s' = lost_log s /\
+  (forall k, get s' k = get s k).
+Proof. exact EngineMerge.merge_batch_ok. Qed.
+Print Assumptions C08_merge_batch_ok.
+
+Theorem C08_merge_raises : forall s es,
+  reachable_m s -> es <> [] -> wal_next s < MaxSeq ->
+  last_seq s < last_seq (fst (merge_batch s es)) /\
+  wal_next s < wal_next (fst (merge_batch s es)).
+Proof. exact EngineMerge.C08m_merge_raises. Qed.
+Print Assumptions C08_merge_raises.
+
+(* a batch without merge entries is the batch of the theorems above *)
+Theorem C08_mixed_batch_plain : forall s ops,
+  mixed_batch s (map eop_of_bop ops) = apply_batch s ops.
+Proof. exact EngineMerge.mixed_batch_plain. Qed.
+Print Assumptions C08_mixed_batch_plain.
+
+(* programs over the old operations and ApplyBatch with entries of any type, in any interleaving *)
+Theorem C08_monotone_m : forall c xs,
+  lost_log (run_m c xs) = false -> StronglySorted N.lt (ack_seqs_m (init c) xs).
+Proof. exact EngineMerge.C08m_monotone. Qed.
+Print Assumptions C08_monotone_m.
+
+Theorem C08_reported_monotone_m :
+  (forall c xs x, lost_log (xstep (run_m c xs) x) = false ->
+     last_seq (run_m c xs) <= last_seq (xstep (run_m c xs) x)) /\
+  (forall c xs, lost_log (run_m c xs) = false ->
+     last_seq (run_m c xs) = last (ack_seqs_m (init c) xs) 0 /\
+     last_seq (run_m c xs) < wal_next (run_m c xs)).
+Proof. exact EngineMerge.C08m_reported_monotone. Qed.
+Print Assumptions C08_reported_monotone_m.
+
+Theorem C08_log_order_m : forall c xs,
+  StronglySorted wseq_le (concat (wal_files (run_m c xs))) /\
+  Forall (fun e => w_seq e < wal_next (run_m c xs)) (concat (wal_files (run_m c xs))) /\
+  last_seq (run_m c xs) = log_max (concat (wal_files (run_m c xs))).
+Proof. exact EngineMerge.C08m_log_order. Qed.
+Print Assumptions C08_log_order_m.
+
+Theorem C08_reopen_restores_m : forall s,
+  reachable_m s -> lost_log (reopen s) = false ->
+  wal_next (reopen s) = wal_next s /\ last_seq (reopen s) = last_seq s.
+Proof. exact EngineMerge.C08m_reopen_restores. Qed.
+Print Assumptions C08_reopen_restores_m.
+
+(* a merge-only batch as the LAST write before a close and reopen: its number is the reported
+   last sequence after the reopen, and the next write gets the number above it *)
+Theorem C08_merge_survives_reopen : forall s es,
+  reachable_m s -> es <> [] -> wal_next s < MaxSeq ->
+  let s' := fst (merge_batch s es) in
+  lost_log (reopen s') = false ->
+  snd (merge_batch s es) = WrOk (wal_next s) /\
+  last_seq (reopen s') = wal_next s /\
+  wal_next (reopen s') = wal_next s + 1 /\
+  (forall k v, snd (put (reopen s') k v) = WrOk (wal_next s + 1) \/
+               snd (put (reopen s') k v) = WrOverflow).
+Proof. exact EngineMerge.C08m_merge_survives_reopen. Qed.
+Print Assumptions C08_merge_survives_reopen.
+
+(* the number of a write is never handed out again *)
+Theorem C08_not_reused_m : forall c xs x ys q,
+  lost_log (run_m c (xs ++ x :: ys)) = false ->
+  xseq1 (run_m c xs) x = [q] ->
+  Forall (fun q' => q' < q) (ack_seqs_m (init c) xs) /\
+  Forall (fun q' => q < q') (ack_seqs_m (xstep (run_m c xs) x) ys).
+Proof. exact EngineMerge.C08m_not_reused. Qed.
+Print Assumptions C08_not_reused_m.
+
+(* non-vacuity: put a; put b; ApplyBatch [merge; merge]; close; reopen; put c *)
+Example C08_merge_scenario :
+  ack_seqs_m (init C08m_example.c0) C08m_example.prog = [1; 2; 3; 4] /\
+  last_trace (init C08m_example.c0) C08m_example.prog = [1; 2; 3; 3; 4] /\
+  lost_log (run_m C08m_example.c0 C08m_example.prog) = false.
+Proof. vm_compute. repeat split; reflexivity. Qed.
